@@ -97,6 +97,7 @@ func Verify(_ *log.Logger, file string) error {
 	tileEntries := 0
 	offsets := roaring64.New()
 	var currentOffset uint64
+	var entryErr error
 
 	err = IterateEntries(header,
 		func(offset uint64, length uint64) ([]byte, error) {
@@ -120,12 +121,18 @@ func Verify(_ *log.Logger, file string) error {
 
 			if e.Offset+uint64(e.Length) > header.TileDataLength {
 				fmt.Printf("Invalid: %v outside of tile data section", e)
+				if entryErr == nil {
+					entryErr = fmt.Errorf("invalid: entry %v outside of tile data section", e)
+				}
 			}
 
 			if header.Clustered {
 				if !offsets.Contains(e.Offset) {
 					if e.Offset != currentOffset {
 						fmt.Printf("Invalid: out-of-order entry %v in clustered archive", e)
+						if entryErr == nil {
+							entryErr = fmt.Errorf("invalid: out-of-order entry %v in clustered archive", e)
+						}
 					}
 					currentOffset += uint64(e.Length)
 				}
@@ -135,6 +142,10 @@ func Verify(_ *log.Logger, file string) error {
 
 	if err != nil {
 		return err
+	}
+
+	if entryErr != nil {
+		return entryErr
 	}
 
 	if uint64(addressedTiles) != header.AddressedTilesCount {
